@@ -48,8 +48,9 @@ def impl(line):
 def widths(defsx):
     """name -> function(items) -> width in bits, for every parameter of the definition."""
     out = {}
+    seen = {}
 
-    def ent(e):
+    def ent(e, owner=None):
         if e[0] == "p":
             name = xbuild.uS(e[1]); enc = e[2][3]
             if enc[0] in ("int", "float"):
@@ -67,11 +68,15 @@ def widths(defsx):
                 else:
                     out[name] = None
         else:
+            seen.setdefault(xbuild.uS(e[1]), set()).add(owner)
             for x in e[6]:
-                ent(x)
+                ent(x, xbuild.uS(e[1]))
     for c in defsx[2]:
         for e in c[6]:
-            ent(e)
+            ent(e, xbuild.uS(c[1]))
+    # a parameter reachable through two different parents (a shared nested container) may be decoded twice in one
+    # packet; the dictionary then shows it once and the width sum is not recoverable from the items
+    out["__shared__"] = any(len(v) > 1 for v in seen.values())
     return out
 
 
@@ -84,6 +89,8 @@ def oracle(line, out):
     if not out.startswith("events"):
         return None
     w = widths(t[1])
+    if w.get("__shared__"):
+        return None
     evs = genutil.split_events(out)
     prev_warn = False
     for ev in evs:
